@@ -215,6 +215,9 @@ package connlist
 //@     assert [C13] errsok: clErrsOK(ca)
 //@   before call 5:
 //@     assert [C13] nostop: forall i int :: {ca.errors[i]} (0 <= i && i < len(ca.errors)) ==> !(clErrFatal(ca.errors[i]) || (ca.stopOnError && clErrSevere(ca.errors[i])))
+//@   before return 2:
+//@     assert [C13] stopped: exists i int :: {ca.errors[i]} 0 <= i && i < len(ca.errors) && (clErrFatal(ca.errors[i]) || (ca.stopOnError && clErrSevere(ca.errors[i])))
+//@     assert [C13] nofatal: !(exists i int :: {ca.errors[i]} 0 <= i && i < len(ca.errors) && clErrFatal(ca.errors[i]) && (forall k int :: {ca.errors[k]} (0 <= k && k < i) ==> !clErrFatal(ca.errors[k])) && clErrErr(ca.errors[i]) != nil)
 
 // boundary of the stop-on-error contracts: the analysis proper (engine construction, ingress analysis, pair loop) - thin contract, callers learn nothing from it
 //@ func (*ConnlistAnalyzer).connsListFromParsedResources
@@ -282,6 +285,9 @@ package connlist
 //@   before call 9:
 //@     assert [C16] allfocus: forall j int :: {peerList[j]} (0 <= j && j < len(peerList) && focusMatch(ca, peerList[j])) ==> (exists k int :: {ca.peersList[k]} 0 <= k && k < len(ca.peersList) && ca.peersList[k] == peerList[j])
 //@     assert [C16] onlyfocus: forall k int :: {ca.peersList[k]} (0 <= k && k < len(ca.peersList)) ==> (exists j int :: {peerList[j]} 0 <= j && j < len(peerList) && ca.peersList[k] == peerList[j] && focusMatch(ca, peerList[j]))
+//@   before return 3:
+//@     assert [C16] nofocus: ca.focusWorkload != "" && !existFocusWorkload && len(ca.errors) > 0 && dyntype(ca.errors[len(ca.errors) - 1], *connlistGeneratingError)
+//@         && !unwrap(ca.errors[len(ca.errors) - 1], *connlistGeneratingError).fatal && !unwrap(ca.errors[len(ca.errors) - 1], *connlistGeneratingError).severe
 //@   before call 13:
 //@     assert [C16] exists: ca.focusWorkload == "" || existFocusWorkload
 //@     assert [C16,C06] samelist: !ca.exposureAnalysis ==> (len(realAndRepresentativePeers) == len(peers) && (forall j int :: {realAndRepresentativePeers[j]} (0 <= j && j < len(peers)) ==> realAndRepresentativePeers[j] == peers[j]))
